@@ -106,6 +106,7 @@ func runC09(c *core.Ctx, r *core.Reporter) {
 	c09nilok(c, r)
 	c09varassert(c, r)
 	c09bounds(c, r)
+	c09kconst(c, r)
 }
 
 // derivesFromLispInt: v is computed (conversions, +/- constants) from a slip.Fixnum value or an Int64() result.
@@ -1039,15 +1040,16 @@ var docCopyHelpers = map[string]int{
 }
 
 var relExceptions = map[string]string{
-	"pkg/cl.(control).dirR|phi:words[hilen1]":          "guarded by 0 < len(trip), and the same iteration appended trip to words under the same test; no instruction between the two shortens words (relation between two slices, beyond the length lattice)",
-	"pkg/repl.(Form).TabAppend|phi:b[last1]":           "inside `if 0 < len(f)`: the loop over f appends at least two bytes before the last one is overwritten",
-	"pkg/repl.(editor).displayHelp|param:doc[last1]":   "interactive terminal editor state, not Lisp input; doc strings handed in are non-empty lines",
-	"pkg/repl.(editor).drawLine|phi:rline[last1]":      "interactive terminal editor state, not Lisp input",
-	"pkg/repl.(editor).findWordEnd|field:lines[last1]": "interactive terminal editor state: the editor always holds at least one line",
-	"pkg/xml.(Read).Call|phi:stack[last1]":             "encoding/xml rejects an end element without a matching start element before it is delivered, so the stack is non-empty at every EndElement",
-	"pp.resolveSymbol|call:Split[last1]":               "strings.Split with a non-empty separator always returns at least one element",
-	"slip.(App).load|extract#0(call:ReadFile)[last1]":  "loader of the application's own encrypted bundle (not Lisp input): the payload holds at least one cipher block after the nonce",
-	"slip.AppendDoc|phi:b[last1]":                      "ret is only true after a newline was appended to b in an earlier iteration, so b is non-empty",
+	"pkg/clos.(StandardClass).mergeSupers|field:precedence[last1]": "the list was emptied and the class's own name appended to it three statements earlier; the loop in between only appends (the value is a merge of two stored values, beyond a per-value length lattice)",
+	"pkg/cl.(control).dirR|phi:words[hilen1]":                      "guarded by 0 < len(trip), and the same iteration appended trip to words under the same test; no instruction between the two shortens words (relation between two slices, beyond the length lattice)",
+	"pkg/repl.(Form).TabAppend|phi:b[last1]":                       "inside `if 0 < len(f)`: the loop over f appends at least two bytes before the last one is overwritten",
+	"pkg/repl.(editor).displayHelp|param:doc[last1]":               "interactive terminal editor state, not Lisp input; doc strings handed in are non-empty lines",
+	"pkg/repl.(editor).drawLine|phi:rline[last1]":                  "interactive terminal editor state, not Lisp input",
+	"pkg/repl.(editor).findWordEnd|field:lines[last1]":             "interactive terminal editor state: the editor always holds at least one line",
+	"pkg/xml.(Read).Call|phi:stack[last1]":                         "encoding/xml rejects an end element without a matching start element before it is delivered, so the stack is non-empty at every EndElement",
+	"pp.resolveSymbol|call:Split[last1]":                           "strings.Split with a non-empty separator always returns at least one element",
+	"slip.(App).load|extract#0(call:ReadFile)[last1]":              "loader of the application's own encrypted bundle (not Lisp input): the payload holds at least one cipher block after the nonce",
+	"slip.AppendDoc|phi:b[last1]":                                  "ret is only true after a newline was appended to b in an earlier iteration, so b is non-empty",
 }
 
 const ruleIdx = "C09.idx"
